@@ -629,6 +629,10 @@ def _case_steps(case, keep=None):
     kw = option_kwargs(case)
     if mode == "value":
         seq = cls.write(addr, case["value"], **kw)
+    elif case.get("call", "positional" if (len(raw) + len(case["image"]) + bool(case.get("force_unlock")) + bool(case.get("short"))) % 3 == 0 else "keyword") == "positional":
+        # the options given by position, in the documented order (allow_short_write, force_unlock, ignore_feedback)
+        seq = cls.write_raw(addr, bytes(raw), kw.get("allow_short_write", False), kw.get("force_unlock", False),
+                            kw.get("ignore_feedback", False))
     else:
         seq = cls.write_raw(addr, bytes(raw), **kw)
     outcome, err = "returned", None
